@@ -7,7 +7,7 @@
    only required to name a retained key. *)
 From Coq Require Import List NArith ZArith Bool.
 From GQL Require Import Base.Bytes Cache.LRU Cache.CacheSpec Proofs.CacheProofs
-     Run.C06run Proofs.CacheRunProofs.
+     Run.C06run Proofs.CacheRunProofs Cache.Normalize Proofs.CacheNormalizeProofs.
 Import ListNotations.
 Open Scope N_scope.
 
@@ -124,6 +124,45 @@ Theorem C06_policy_independent :
 Proof. intros. apply results_policy_independent; assumption. Qed.
 Print Assumptions C06_policy_independent.
 
+(* Literal normalisation on a reduced query syntax (Cache/Normalize.v): for
+   every schema (field_def, arg_ty, tc_obj), every coercion (lit_coerce =
+   valueFromAST on a literal, var_coerce = variable coercion), every selection
+   set whose variables are among [taken] (variableNames of the document) and
+   every variable environment env of the caller: executing the normalised
+   selection set under env extended by the synthetic definitions applied to
+   SynthArgs is observationally the execution of the original under env
+   (same denotation: typed arguments by coerced value, everything else by
+   syntax + the values of the variables occurring in it); the caller's
+   variables keep their values (so fragments, which stay as written, see the
+   same environment), and every synthetic variable is fresh and valid.
+   Partial: reduced syntax (composite values with variables and
+   alias/directives are opaque), no statement about validation of the
+   normalised document, the nextName loop is bounded by fuel (out of fuel =
+   literal left in place). *)
+Theorem C06_normalize_transparent_partial :
+  forall (L cval mixed deco : Type) (L_eqb : L -> L -> bool) (cval_eqb : cval -> cval -> bool)
+         (mixed_vars : mixed -> list name) (deco_vars : deco -> list name) (synth_name : N -> name)
+         field_def arg_ty tc_obj (lit_coerce : ty -> L -> option cval) (var_coerce : ty -> cval -> option cval)
+         (taken : list name) (fuel : nat) (env : name -> option cval),
+    (forall a b, L_eqb a b = true -> a = b) ->
+    (forall a b, cval_eqb a b = true -> a = b) ->
+    (forall a b, synth_name a = synth_name b -> a = b) ->
+    forall root (sels : list (@sel L mixed deco)) st sels',
+      normalize L_eqb cval_eqb synth_name field_def arg_ty tc_obj lit_coerce var_coerce taken fuel root sels = (st, sels') ->
+      incl (flat_map (sel_vars mixed_vars deco_vars) sels) taken ->
+      let env' := extend var_coerce env (n_synth st) in
+      map (denote mixed_vars deco_vars field_def arg_ty tc_obj lit_coerce env' root) sels' =
+      map (denote mixed_vars deco_vars field_def arg_ty tc_obj lit_coerce env root) sels /\
+      (forall y, In y taken -> env' y = env y) /\
+      (forall x t c, In (x, (t, c)) (n_synth st) -> ~ In x taken /\ var_coerce t c = Some c /\ env' x = Some c).
+Proof.
+  intros L cval mixed deco L_eqb cval_eqb mixed_vars deco_vars synth_name field_def arg_ty tc_obj
+         lit_coerce var_coerce taken fuel env H1 H2 H3 root sels st sels' HN HV.
+  exact (normalize_transparent L_eqb cval_eqb mixed_vars deco_vars synth_name field_def arg_ty tc_obj
+           lit_coerce var_coerce taken fuel env H1 H2 H3 root sels st sels' HN HV).
+Qed.
+Print Assumptions C06_normalize_transparent_partial.
+
 (* ---- non-vacuity: the hypotheses are satisfiable and the model moves ---- *)
 
 Example C06_lru_is_a_policy : forall R, victim_ok (@last_key R).
@@ -151,3 +190,14 @@ Example C06_nonvacuous_key :
   lenprefix [97] [49; 58; 98] <> lenprefix [97; 49] [58; 98] /\
   [97] ++ 0 :: [49; 58; 98] <> [97; 0] ++ 0 :: [58; 98].
 Proof. split; intro H; vm_compute in H; discriminate H. Qed.
+
+(* normalisation does extract, share and avoid taken names: {f(n:1) f(n:1) g(p:$v)} with $v and __pcv0 taken *)
+Example C06_nonvacuous_normalize :
+  let fd := fun (_ : otype) (_ : name) => Some (@None otype) in
+  let at_ := fun (_ : otype) (_ _ : name) => Some 7 in
+  let res := normalize (L:=N) (cval:=N) (mixed:=unit) (deco:=unit) N.eqb N.eqb (fun k => 100 + k) fd at_ (fun _ => None)
+                       (fun _ l => Some l) (fun _ c => Some c) [5; 100] 3%nat 0
+                       [Field tt 1 [(9, VLit 1)] []; Field tt 1 [(9, VLit 1)] []; Field tt 2 [(8, VVar 5)] []] in
+  snd res = [Field tt 1 [(9, VVar 101)] []; Field tt 1 [(9, VVar 101)] []; Field tt 2 [(8, VVar 5)] []] /\
+  n_synth (fst res) = [(101, (7, 1))].
+Proof. vm_compute. split; reflexivity. Qed.
